@@ -87,6 +87,26 @@ mut("C15", "F5b-reverted", NS, "    if selected_nodes.len() < n {\n        let r
 mut("C15", "each-quorum-local-dc-like-remote", NS, "                    let majority = if name == local_dc {", "                    let majority = if name != local_dc {")
 mut("C15", "n-nodes-may-duplicate", NS, "                if node == local_node || selected_nodes.contains(&node) {\n                    continue;\n                }", "                if node == local_node {\n                    continue;\n                }")
 
+RS = "datacake-rpc/src/server.rs"
+RC = "datacake-eventual-consistency/src/rpc/client.rs"
+NL = "datacake-node/src/lib.rs"
+# --- C13
+mut("C13", "F4-reverted", RS, "lock.retain(|key, _| !uris.contains(key));", "lock.retain(|key, _| uris.contains(key));")
+mut("C13", "remove-keeps-handlers", RS, "        let mut lock = self.handlers.write();\n        lock.retain(|key, _| !uris.contains(key));", "        let _ = uris;")
+# --- C16
+mut("C16", "F6-reverted", NL, "            if let Some(member) = last_members.get(node_id) {", "            if let Some(member) = members.get(node_id) {")
+mut("C16", "joined-left-swapped", NL, "                membership_changes.joined.push(member.clone());", "                membership_changes.left.push(member.clone());")
+mut("C16", "self-reported-as-joined", NL, "            .filter(|(node_id, _)| *node_id != &self_node_id)\n            .map(|(_, member)| (member.node_id, member.public_addr))", "            .map(|(_, member)| (member.node_id, member.public_addr))")
+mut("C16", "last-set-not-updated", NL, "        last_network_set = new_network_set;\n", "        drop(new_network_set);\n")
+# --- C15 node
+mut("C15", "F5a-reverted", NS, "                    data_centers.clear();\n", "")
+mut("C15", "cache-not-cleared-on-update", NS, "                    cached_nodes.clear();\n", "")
+# --- C19
+mut("C19", "nested-bytes-misaligned-by-prefix", RI, "        Ok(KeyspaceOrSwotSet {\n            timestamp,\n            last_updated,\n            set,\n        })", "        let mut set = set;\n        set.insert(0, 0u8);\n        Ok(KeyspaceOrSwotSet {\n            timestamp,\n            last_updated,\n            set,\n        })")
+mut("C19", "client-decodes-shifted", RC, "rkyv::from_bytes_unchecked(&inner.set).map_err(|_| Status::invalid())?", "rkyv::from_bytes_unchecked(&inner.set[..inner.set.len() - 8]).map_err(|_| Status::invalid())?")
+mut("C19", "serialize-drops-versions", AC, "        rkyv::to_bytes::<_, 4096>(&self.state)", "        let mut fresh = OrSWotSet::<NUM_SOURCES>::default();\n        fresh.merge(self.state.clone());\n        let _ = &fresh;\n        let mut stripped = OrSWotSet::<NUM_SOURCES>::default();\n        for (k, ts) in OrSWotSet::<NUM_SOURCES>::default().diff(&self.state).0 { stripped.insert(k, ts); }\n        rkyv::to_bytes::<_, 4096>(&stripped)")
+mut("C19", "last-updated-is-now", RI, "        let last_updated = keyspace.send(LastUpdated).await;", "        let last_updated = self.group.clock().get_time().await;")
+
 def sh(cmd, **kw):
     return subprocess.run(cmd, shell=True, capture_output=True, text=True, **kw)
 
@@ -118,6 +138,8 @@ def main():
         results.append((tag, verdicts))
     sh("git -C /repo checkout -- .")
     sh("rm -rf /verif/replays/*")
+    # rebuild the harness against the restored tree so that no mutated binary is left behind
+    sh("cd /verif/harness && cargo build --release --offline")
     # leave evidence in the state of the unchanged tree: the caller re-runs the checks afterwards
 
 main()
